@@ -8,13 +8,16 @@ PID = "C18"
 CLAIM = dict(
     text="Machine-checked Coq theorems over an executable model of FileSystemPackageResolver::resolve (one key), "
          "quantified over every file-system state, key, override map, unknown-package mode, both settings of the "
-         "`wat` feature and every behaviour of the WAT/WIT library oracles: the model equals the decision table "
-         "written from README + property text everywhere except one exactly characterised situation (a DIRECTORY at "
-         "the suffixed candidate `B.wat`/`B.wasm`, proved to be loaded as a WIT package and refuting the full "
-         "table); extension appended never replaced; `.wat` preferred when enabled else `.wasm`; directory at B is a "
+         "`wat` feature and every behaviour of the WAT/WIT library oracles: the model of the CURRENT code (resolve_one_fixed, "
+         "following the repair d297b59) equals the decision table written from README + property text for EVERY "
+         "well-formed key (fs_resolve_table, full strength); the model of the code as found (resolve_one) equals it "
+         "everywhere except one exactly characterised situation (a DIRECTORY at the suffixed candidate `B.wat`/`B.wasm`, "
+         "proved to be loaded as a WIT package and refuting the full table; kept to recognise a return of the defect), "
+         "and the repair is proved conservative outside that situation; for both models: extension appended never replaced; `.wat` preferred when enabled else `.wasm`; directory at B is a "
          "WIT package; overrides apply to unversioned keys only, are used exclusively, and must exist; returned "
          "bytes are the found file's bytes or the encoding/assembly of what was found; skipped/unknown exactly when "
-         "nothing is there, by mode. The model is tied to the real resolver on every run by building directory "
+         "nothing is there, by mode (for the repaired code as an equivalence: not found <-> no directory at B and no "
+         "FILE at B.wat / B.wasm). The current-code model is tied to the real resolver on every run by building directory "
          "layouts in a temp dir for both feature builds (quick: seeded ~9k sample each; thorough: the exhaustive "
          "71,280-layout space each).",
     design_ref="DESIGN.md §5 C18",
@@ -226,7 +229,8 @@ def run(res, tier, seed, replay):
     model = open(model_p).read().split("\n")[:-1]
     assert len(cases) == len(impl) == len(model), (len(cases), len(impl), len(model))
 
-    disagreements = []      # impl vs model (outside the recorded deviation; inside it impl may equal model OR table)
+    disagreements = []      # impl vs the model of the current code (resolve_one_fixed), on every layout
+    expect_fixed = not any(e.get("status") == "known" and e.get("signature") in SIGNATURE.values() for e in known)
     prop_fail = []          # impl vs specification table, not covered by a known entry
     known_hits = {}         # entry id -> [cases]
     nontriv = set()
@@ -236,12 +240,16 @@ def run(res, tier, seed, replay):
         if len(mf) < 4 or mf[3] != "1":
             disagreements.append((c, i, m)); continue
         m_obs, s_obs, dev = mf[0], mf[1], mf[2]
+        # the model of the CURRENT code: resolve_one_fixed once the repair d297b59 is recorded as `fixed`
+        # (no `known` entry with a deviation signature left), the as-found model resolve_one otherwise
+        cur_obs = mf[5] if (expect_fixed and len(mf) > 5) else m_obs
         head = " ".join(i.split(" ")[:2]) if i.startswith("ERR") else i.split(" ")[0]
         outcomes[head] = outcomes.get(head, 0) + 1
         if nontrivial(c, i):
             nontriv.add(c)
         spec_ok = (i == s_obs)
-        model_ok = (i == m_obs)
+        model_ok = (i == m_obs)          # behaves like the code AS FOUND (used to recognise the recorded defect)
+        cur_ok = (i == cur_obs)          # behaves like the model of the current code
         if not spec_ok:
             sig = SIGNATURE.get(dev)
             ent = next((e for e in known if e.get("status") == "known" and e.get("signature") == sig), None) if sig else None
@@ -250,7 +258,7 @@ def run(res, tier, seed, replay):
             else:
                 prop_fail.append((c, i, m, "observation differs from the documented decision table"
                                   + (" (deviation situation %s, but not the recorded behaviour)" % dev if sig else "")))
-        if not model_ok and not (dev != "0" and spec_ok):
+        if not cur_ok:
             disagreements.append((c, i, m))
     # KNOWN-FINDING lines: only for entries whose witness still fails
     for e in known:
